@@ -6,6 +6,11 @@ use core::cmp::Ordering;
 verus! {
 //@@ INCLUDE lib/ratio_lemmas.rs
 //@@ INCLUDE lib/bigstub.rs
+impl Sign {
+//@@ FN rational/sign/base_sign_mul.rs
+//@@ FN rational/sign/base_sign_neg.rs
+//@@ FN rational/sign/base_sign_cmp.rs
+}
 //@@ INCLUDE lib/ratio_types.rs
 impl RBig {
 //@@ FN rational/rbig/rbig_numerator.rs
